@@ -93,16 +93,73 @@ func runServiceRules(c *Ctx) {
 	type fstore struct {
 		st    *ssa.Store
 		field string
+		call  *ssa.Call      // the call (in fn) of the helper the store sits in, nil for a store of fn itself
+		prm   *ssa.Parameter // the helper's parameter that receives &service
 	}
 	var stores []fstore
+	// helpers that are handed the address of the local service: their stores through that parameter are stores into it
+	type svcHelper struct {
+		call *ssa.Call
+		h    *ssa.Function
+		prm  *ssa.Parameter
+	}
+	var helpers []svcHelper
 	for _, blk := range fn.Blocks {
 		for _, in := range blk.Instrs {
 			if st, ok := in.(*ssa.Store); ok {
 				if fa, ok := st.Addr.(*ssa.FieldAddr); ok && fa.X == ssa.Value(svc) {
-					stores = append(stores, fstore{st, fieldName(fa.X.Type(), fa.Field)})
+					stores = append(stores, fstore{st: st, field: fieldName(fa.X.Type(), fa.Field)})
+				}
+			}
+			if call, ok := in.(*ssa.Call); ok && !call.Call.IsInvoke() {
+				h := call.Call.StaticCallee()
+				if h == nil || !p.isModuleFn(h) || len(h.Blocks) == 0 || len(h.Params) != len(call.Call.Args) || len(naturalLoops(h)) > 0 {
+					continue
+				}
+				for i, a := range call.Call.Args {
+					if a == ssa.Value(svc) {
+						helpers = append(helpers, svcHelper{call, h, h.Params[i]})
+					}
 				}
 			}
 		}
+	}
+	for _, sh := range helpers {
+		for _, blk := range sh.h.Blocks {
+			for _, in := range blk.Instrs {
+				if st, ok := in.(*ssa.Store); ok {
+					if fa, ok := st.Addr.(*ssa.FieldAddr); ok && fa.X == ssa.Value(sh.prm) {
+						stores = append(stores, fstore{st: st, field: fieldName(fa.X.Type(), fa.Field), call: sh.call, prm: sh.prm})
+					}
+				}
+			}
+		}
+	}
+	// argOf: a helper's parameter stands for what the call hands it
+	argOf := func(call *ssa.Call, v ssa.Value) ssa.Value {
+		if call == nil {
+			return v
+		}
+		if prm, ok := v.(*ssa.Parameter); ok {
+			if h := call.Call.StaticCallee(); h != nil {
+				for i, q := range h.Params {
+					if q == prm && i < len(call.Call.Args) {
+						return call.Call.Args[i]
+					}
+				}
+			}
+		}
+		return v
+	}
+	binderFor := func(call *ssa.Call) *binder {
+		if call == nil {
+			return b
+		}
+		var as []string
+		for _, a := range call.Call.Args {
+			as = append(as, b.bind(a))
+		}
+		return b.withArgs(call.Call.StaticCallee(), as)
 	}
 	// The guards are read path by path through one trip around the row loop (a store may be reached under `new ||
 	// date.Before(start)`, which is two paths, not one dominating condition).
@@ -134,6 +191,42 @@ func runServiceRules(c *Ctx) {
 		}
 		return nil, false
 	}
+	// factsAt: the branch outcomes known where the store executes, one list per way of getting there on this trip
+	// around the row loop: for a store in a helper, the caller's outcomes before the call followed by the helper's own
+	// on each of its paths to the store, with the helper's parameters replaced by the call's arguments
+	factsAt := func(pf pathFacts, fs fstore) ([][]condEdge, bool) {
+		if fs.call == nil {
+			f, on := factsBefore(pf, fs.st.Block())
+			if !on {
+				return nil, false
+			}
+			return [][]condEdge{f}, true
+		}
+		base, on := factsBefore(pf, fs.call.Block())
+		if !on {
+			return nil, false
+		}
+		var out [][]condEdge
+		enumPaths(fs.call.Call.StaticCallee(), func(path []*ssa.BasicBlock) {
+			at := -1
+			for i, hb := range path {
+				if hb == fs.st.Block() {
+					at = i
+				}
+			}
+			if at < 0 {
+				return
+			}
+			facts := append([]condEdge{}, base...)
+			for i := 0; i < at; i++ {
+				if cond, val, ok := edgeTaken(path, i, nil); ok {
+					facts = append(facts, condEdge{Cond: argOf(fs.call, cond), Val: val})
+				}
+			}
+			out = append(out, facts)
+		})
+		return out, len(out) > 0
+	}
 	isNewFact := func(ce condEdge) bool {
 		cond, val := ce.Cond, ce.Val
 		for {
@@ -149,16 +242,18 @@ func runServiceRules(c *Ctx) {
 		if fs.field != "StartDate" && fs.field != "EndDate" {
 			continue
 		}
-		valExpr := b.bind(fs.st.Val)
+		valExpr := binderFor(fs.call).bind(fs.st.Val)
 		okVal := strings.Contains(valExpr, "(col:date") && b.headClass(valExpr) == "(string)→(time.Time,error)"
 		guards := map[string]bool{}
 		unguarded := false
 		nOn := 0
+		var factLists [][]condEdge
 		for _, pf := range paths {
-			facts, on := factsBefore(pf, fs.st.Block())
-			if !on {
-				continue
+			if fl, on := factsAt(pf, fs); on {
+				factLists = append(factLists, fl...)
 			}
+		}
+		for _, facts := range factLists {
 			nOn++
 			g := ""
 			for _, ce := range facts {
@@ -172,10 +267,10 @@ func runServiceRules(c *Ctx) {
 				if call, isCall := cond.(*ssa.Call); isCall && calleeName(call) == "(time.Time).Before" && val && g == "" {
 					own := canon(call.Call.Args[0])
 					other := canon(call.Call.Args[1])
-					if fs.field == "StartDate" && isDateVal(call.Call.Args[0], fn) && strings.HasSuffix(other, ".StartDate)") {
+					if fs.field == "StartDate" && isDateVal(argOf(fs.call, call.Call.Args[0]), fn) && strings.HasSuffix(other, ".StartDate)") {
 						g = "date.Before(StartDate)"
 					}
-					if fs.field == "EndDate" && strings.HasSuffix(own, ".EndDate)") && isDateVal(call.Call.Args[1], fn) {
+					if fs.field == "EndDate" && strings.HasSuffix(own, ".EndDate)") && isDateVal(argOf(fs.call, call.Call.Args[1]), fn) {
 						g = "EndDate.Before(date)"
 					}
 				}
@@ -195,15 +290,91 @@ func runServiceRules(c *Ctx) {
 	}
 	// on every path on which the service turned out to be new, both ends are set afterwards
 	okBoth, nNew := true, 0
+	isExistingFact := func(ce condEdge) bool {
+		cond, val := ce.Cond, ce.Val
+		for {
+			u, isNot := cond.(*ssa.UnOp)
+			if !isNot || u.Op != token.NOT {
+				break
+			}
+			cond, val = u.X, !val
+		}
+		return cond == okFlag && val
+	}
+	// toldFlag: the helper call is handed the found-flag (or its negation)
+	toldFlag := func(call *ssa.Call) bool {
+		for _, a := range call.Call.Args {
+			v := a
+			for {
+				u, isNot := v.(*ssa.UnOp)
+				if !isNot || u.Op != token.NOT {
+					break
+				}
+				v = u.X
+			}
+			if v == okFlag {
+				return true
+			}
+		}
+		return false
+	}
+	// setWhenNew: the fields of the service the helper call stores on every one of its paths that is possible for a
+	// service that was not found
+	setWhenNew := func(sh svcHelper) map[string]bool {
+		var common map[string]bool
+		enumPaths(sh.h, func(path []*ssa.BasicBlock) {
+			for i := range path {
+				if cond, val, ok := edgeTaken(path, i, nil); ok && isExistingFact(condEdge{Cond: argOf(sh.call, cond), Val: val}) {
+					return // this path is taken for a service that was found
+				}
+			}
+			here := map[string]bool{}
+			for _, hb := range path {
+				for _, in := range hb.Instrs {
+					if st, ok := in.(*ssa.Store); ok {
+						if fa, ok := st.Addr.(*ssa.FieldAddr); ok && fa.X == ssa.Value(sh.prm) {
+							here[fieldName(fa.X.Type(), fa.Field)] = true
+						}
+					}
+				}
+			}
+			if common == nil {
+				common = here
+				return
+			}
+			for k := range common {
+				if !here[k] {
+					delete(common, k)
+				}
+			}
+		})
+		return common
+	}
 	for _, pf := range paths {
 		newAt := -1
+		existing := false
 		for _, f := range pf.facts {
 			if isNewFact(f.ce) && newAt < 0 {
 				newAt = f.at
 			}
+			if isExistingFact(f.ce) {
+				existing = true
+			}
 		}
 		if newAt < 0 {
-			continue
+			// not decided by a branch of the loop itself: the case of a new service is still on this path when a helper
+			// is told the flag and decides
+			told := false
+			for _, blk := range pf.blocks {
+				for _, sh := range helpers {
+					if sh.call.Block() == blk && toldFlag(sh.call) {
+						told = true
+					}
+				}
+			}
+			if existing || !told {
+				continue
+			}
 		}
 		nNew++
 		set := map[string]bool{}
@@ -215,6 +386,13 @@ func runServiceRules(c *Ctx) {
 				if st, ok := in.(*ssa.Store); ok {
 					if fa, ok := st.Addr.(*ssa.FieldAddr); ok && fa.X == ssa.Value(svc) {
 						set[fieldName(fa.X.Type(), fa.Field)] = true
+					}
+				}
+				for _, sh := range helpers {
+					if ssa.Instruction(sh.call) == in {
+						for k := range setWhenNew(sh) {
+							set[k] = true
+						}
 					}
 				}
 			}
@@ -245,11 +423,14 @@ func runServiceRules(c *Ctx) {
 			}
 			n++
 			guarded, nOn := true, 0
+			sb := binderFor(fs.call)
+			var factLists [][]condEdge
 			for _, pf := range paths {
-				facts, on := factsBefore(pf, fs.st.Block())
-				if !on {
-					continue
+				if fl, on := factsAt(pf, fs); on {
+					factLists = append(factLists, fl...)
 				}
+			}
+			for _, facts := range factLists {
 				nOn++
 				has := false
 				for _, ce := range facts {
@@ -259,7 +440,7 @@ func runServiceRules(c *Ctx) {
 						continue
 					}
 					eq := (bo.Op == token.EQL && val) || (bo.Op == token.NEQ && !val)
-					if s, isS := constString(bo.Y); eq && isS && s == want.digit && strings.Contains(b.bind(bo.X), "col:exception_type") {
+					if s, isS := constString(bo.Y); eq && isS && s == want.digit && (strings.Contains(b.bind(bo.X), "col:exception_type") || strings.Contains(sb.bind(bo.X), "col:exception_type")) {
 						has = true
 					}
 				}
@@ -267,7 +448,7 @@ func runServiceRules(c *Ctx) {
 					guarded = false
 				}
 			}
-			okApp := isAppendOf(fs.st.Val, fs.st.Addr) && isDateVal(appendedOne(fs.st.Val), fn)
+			okApp := isAppendOf(fs.st.Val, fs.st.Addr) && isDateVal(argOf(fs.call, appendedOne(fs.st.Val)), fn)
 			c.Check(guarded && nOn > 0 && okApp, "SVC", fname, want.field+" <- exception_type "+want.digit, p.ipos(fs.st), "the row's date is appended, on every path, under exception_type == \""+want.digit+"\"", "dates are added to "+want.field+" under another exception type, or something other than the row's date is appended")
 		}
 		if n == 0 {
@@ -624,6 +805,23 @@ func runAlertRules(c *Ctx) {
 			call, ok := in.(*ssa.Call)
 			if !ok || !isEntAppend(call) {
 				continue
+			}
+			// the whole list a helper built from the set of explicitly informed routes, appended in one go: the helper's own
+			// appends are the fallback entities (checked below, against its parameter)
+			if len(call.Call.Args) == 2 && informedRoutes != nil {
+				if hc, isCall := call.Call.Args[1].(*ssa.Call); isCall && !hc.Call.IsInvoke() {
+					if g := hc.Call.StaticCallee(); g != nil && c.P.isModuleFn(g) && len(g.Blocks) > 0 && fnPkgPath(g) == fnPkgPath(fn) && hc.Block() == b {
+						handsSet := false
+						for _, a := range hc.Call.Args {
+							if a == informedRoutes {
+								handsSet = true
+							}
+						}
+						if handsSet {
+							continue
+						}
+					}
+				}
 			}
 			nFallback++
 			guarded := false
